@@ -12,6 +12,15 @@ theorem pres_openSt {s s' : St} {a : Act} (hI : Inv s) (h : step .repaired s a =
   | fire t0 =>
     simp only [step] at h
     (repeat' (split at h)) <;> (try cases h) <;> (simp only [St.setPc, St.setObj]; (have i_openSt := hI.openSt; have i_putDir := hI.putDir; have i_miss := hI.miss; have i_lockA := hI.lockA; have i_lockB := hI.lockB; have i_shNil := hI.shNil; have i_dlDel := hI.dlDel; have i_stObj := hI.stObj; have i_refs := hI.refs; have i_dlSt := hI.dlSt; grind [upd, holdsStore, knowsNil, missDir, PC.ref, Obj.fresh, dlObj]))
+  | corrupt d =>
+    simp only [step] at h
+    (repeat' (split at h)) <;> (try cases h) <;> (simp only []; (have i_openSt := hI.openSt; have i_putDir := hI.putDir; have i_miss := hI.miss; have i_lockA := hI.lockA; have i_lockB := hI.lockB; have i_shNil := hI.shNil; have i_dlDel := hI.dlDel; have i_stObj := hI.stObj; have i_refs := hI.refs; have i_dlSt := hI.dlSt; grind [upd, holdsStore, knowsNil, missDir, PC.ref, Obj.fresh, dlObj]))
+  | block d =>
+    simp only [step] at h
+    (repeat' (split at h)) <;> (try cases h) <;> (simp only []; (have i_openSt := hI.openSt; have i_putDir := hI.putDir; have i_miss := hI.miss; have i_lockA := hI.lockA; have i_lockB := hI.lockB; have i_shNil := hI.shNil; have i_dlDel := hI.dlDel; have i_stObj := hI.stObj; have i_refs := hI.refs; have i_dlSt := hI.dlSt; grind [upd, holdsStore, knowsNil, missDir, PC.ref, Obj.fresh, dlObj]))
+  | repair d =>
+    simp only [step] at h
+    (repeat' (split at h)) <;> (try cases h) <;> (simp only []; (have i_openSt := hI.openSt; have i_putDir := hI.putDir; have i_miss := hI.miss; have i_lockA := hI.lockA; have i_lockB := hI.lockB; have i_shNil := hI.shNil; have i_dlDel := hI.dlDel; have i_stObj := hI.stObj; have i_refs := hI.refs; have i_dlSt := hI.dlSt; grind [upd, holdsStore, knowsNil, missDir, PC.ref, Obj.fresh, dlObj]))
   | run t0 =>
     simp only [step] at h
     split at h
